@@ -3,6 +3,7 @@ package rules
 import (
 	"fmt"
 	"go/ast"
+	"go/token"
 	"go/types"
 	"strings"
 
@@ -241,28 +242,9 @@ func (c *Ctx) canonicalRefs(reach []*core.FuncInfo) {
 			key := fi.QName() + "/" + callee.Name()
 			ok, how := c.isCanonicalRef(fi, ref, call)
 			if !ok {
-				if why, ex := refExempt[fi.QName()+"/"+exprStr(ref)]; ex {
+				if why := refTransientWhy; c.refIsFirstParent(fi, ref) {
 					// the exemption holds only while the write raises the re-run flag when the ref is not a definition
-					raised := false
-					if blk, isBlk := c.parents(fi).Enclosing(call, func(n ast.Node) bool { _, b := n.(*ast.BlockStmt); return b }).(*ast.BlockStmt); isBlk {
-						for _, st := range blk.List {
-							as, isAs := st.(*ast.AssignStmt)
-							if !isAs || len(as.Lhs) != 1 || len(as.Rhs) != 1 || !core.IsBool(info.TypeOf(as.Lhs[0])) || !c.flowsToReturn(fi, as.Lhs[0]) {
-								continue
-							}
-							rs := exprStr(as.Rhs[0])
-							if strings.Contains(rs, "path.Dir("+exprStr(ref)) && strings.Contains(rs, "!=") {
-								ast.Inspect(as.Rhs[0], func(m ast.Node) bool {
-									if x, isE := m.(ast.Expr); isE {
-										if s, isC := core.ConstString(info, x); isC && s == "#/definitions" {
-											raised = true
-										}
-									}
-									return true
-								})
-							}
-						}
-					}
+					raised := c.raisesRerunFlag(fi, call, ref)
 					if raised {
 						c.S.Exempt("C02", "REF-CANONICAL", key, c.P.Pos(call.Pos()), why)
 					} else {
@@ -282,8 +264,187 @@ func (c *Ctx) canonicalRefs(reach []*core.FuncInfo) {
 	}
 }
 
-var refExempt = map[string]string{
-	"analysis.stripOAIGenForRef/replacingRef": "transient: other parents are re-pointed to the first parent, possibly an anonymous pointer; the caller is told (replacedWithComplex) and pointer naming runs again on all paths",
+// isDefsJoin: the string expression is path.Join("#/definitions", X), a local holding one, or a parameter that
+// receives one at every call site of the function.
+func (c *Ctx) isDefsJoin(fi *core.FuncInfo, e ast.Expr, depth int) bool {
+	info := c.info(fi)
+	e = core.Unparen(e)
+	if depth > 3 {
+		return false
+	}
+	if o := core.ObjOf(info, e); o != nil {
+		if idx, isParam := c.paramIndexOf(fi, o); isParam {
+			sites := 0
+			for _, caller := range c.P.SortedFuncs() {
+				for _, call := range calls(caller.Decl.Body) {
+					if c.P.StaticCallee(caller, call) != fi.Obj {
+						continue
+					}
+					sites++
+					if idx >= len(call.Args) || !c.isDefsJoin(caller, call.Args[idx], depth+1) {
+						return false
+					}
+				}
+			}
+			return sites > 0
+		}
+		defs := c.P.Locals(fi).Defs[o]
+		if len(defs) == 1 && defs[0].Kind == core.DefAssign {
+			return c.isDefsJoin(fi, defs[0].Expr, depth+1)
+		}
+		return false
+	}
+	j, ok := e.(*ast.CallExpr)
+	if !ok {
+		return false
+	}
+	jc := c.P.CalleeAny(fi, j)
+	if jc == nil || jc.FullName() != "path.Join" || len(j.Args) != 2 {
+		return false
+	}
+	s, isConst := core.ConstString(info, j.Args[0])
+	return isConst && s == "#/definitions"
+}
+
+// paramIndexOf: index of o among the declared parameters of fi (receiver excluded).
+func (c *Ctx) paramIndexOf(fi *core.FuncInfo, o types.Object) (int, bool) {
+	sig := fi.Obj.Type().(*types.Signature)
+	for i := 0; i < sig.Params().Len(); i++ {
+		if sig.Params().At(i) == o {
+			return i, true
+		}
+	}
+	return 0, false
+}
+
+// refTransientWhy: the one role in which a possibly non-canonical $ref may be written (DESIGN §3.4): a ref to
+// the first (topmost) parent of a definition being stripped, reported to the caller through the re-run flag.
+const refTransientWhy = "transient: other parents are re-pointed to the first parent, possibly an anonymous pointer; the caller is told (replacedWithComplex) and pointer naming runs again on all paths"
+
+// refIsFirstParent: the ref is spec.MustCreateRef(<element 0 of the result of sortref.TopmostFirst>).
+func (c *Ctx) refIsFirstParent(fi *core.FuncInfo, ref ast.Expr) bool {
+	info := c.info(fi)
+	resolve := func(e ast.Expr) ast.Expr {
+		e = core.Unparen(e)
+		for i := 0; i < 3; i++ {
+			o := core.ObjOf(info, e)
+			if o == nil {
+				break
+			}
+			defs := c.P.Locals(fi).Defs[o]
+			if len(defs) != 1 || defs[0].Kind != core.DefAssign {
+				break
+			}
+			e = core.Unparen(defs[0].Expr)
+		}
+		return e
+	}
+	call, ok := resolve(ref).(*ast.CallExpr)
+	if !ok || len(call.Args) != 1 {
+		return false
+	}
+	if cal := c.P.CalleeAny(fi, call); cal == nil || cal.FullName() != "github.com/go-openapi/spec.MustCreateRef" {
+		return false
+	}
+	ix, ok := resolve(call.Args[0]).(*ast.IndexExpr)
+	if !ok {
+		return false
+	}
+	if tv, isC := info.Types[ix.Index]; !isC || tv.Value == nil || tv.Value.String() != "0" {
+		return false
+	}
+	src, ok := resolve(ix.X).(*ast.CallExpr)
+	if !ok {
+		return false
+	}
+	cal := c.P.CalleeAny(fi, src)
+	return cal != nil && cal.Name() == "TopmostFirst"
+}
+
+// raisesRerunFlag: next to the write (same block), a returned bool flag is raised when path.Dir(<ref>) is not
+// the definitions prefix — either `flag = flag || path.Dir(ref) != "#/definitions"` or
+// `if path.Dir(ref) != "#/definitions" { flag = true }`.
+func (c *Ctx) raisesRerunFlag(fi *core.FuncInfo, site *ast.CallExpr, ref ast.Expr) bool {
+	info := c.info(fi)
+	refObj := core.ObjOf(info, ref)
+	// the objects the path.Dir argument may mention: the ref local, or the locals its constructor was built from
+	mention := map[types.Object]bool{}
+	if refObj != nil {
+		mention[refObj] = true
+		for _, d := range c.P.Locals(fi).Defs[refObj] {
+			if d.Expr != nil {
+				ast.Inspect(d.Expr, func(n ast.Node) bool {
+					if id, ok := n.(*ast.Ident); ok {
+						if o := info.Uses[id]; o != nil {
+							if _, isVar := o.(*types.Var); isVar {
+								mention[o] = true
+							}
+						}
+					}
+					return true
+				})
+			}
+		}
+	}
+	isNonDefTest := func(e ast.Expr) bool {
+		found := false
+		ast.Inspect(e, func(n ast.Node) bool {
+			be, ok := n.(*ast.BinaryExpr)
+			if !ok || be.Op != token.NEQ {
+				return true
+			}
+			for _, pair := range [][2]ast.Expr{{be.X, be.Y}, {be.Y, be.X}} {
+				s, isC := core.ConstString(info, pair[1])
+				dir, isCall := core.Unparen(pair[0]).(*ast.CallExpr)
+				if !isC || s != "#/definitions" || !isCall || len(dir.Args) != 1 {
+					continue
+				}
+				if cal := c.P.CalleeAny(fi, dir); cal == nil || cal.FullName() != "path.Dir" {
+					continue
+				}
+				ast.Inspect(dir.Args[0], func(m ast.Node) bool {
+					if id, ok := m.(*ast.Ident); ok && mention[info.Uses[id]] {
+						found = true
+					}
+					return true
+				})
+			}
+			return true
+		})
+		return found
+	}
+	blk, isBlk := c.parents(fi).Enclosing(site, func(n ast.Node) bool { _, b := n.(*ast.BlockStmt); return b }).(*ast.BlockStmt)
+	if !isBlk {
+		return false
+	}
+	for _, st := range blk.List {
+		switch x := st.(type) {
+		case *ast.AssignStmt:
+			if len(x.Lhs) != 1 || len(x.Rhs) != 1 || !core.IsBool(info.TypeOf(x.Lhs[0])) || !c.flowsToReturn(fi, x.Lhs[0]) {
+				continue
+			}
+			// flag = flag || <test>
+			if be, ok := core.Unparen(x.Rhs[0]).(*ast.BinaryExpr); ok && be.Op == token.LOR && isNonDefTest(x.Rhs[0]) {
+				return true
+			}
+		case *ast.IfStmt:
+			if x.Init != nil || x.Else != nil || !isNonDefTest(x.Cond) {
+				continue
+			}
+			// the test must not be weakened by a conjunction
+			if be, ok := core.Unparen(x.Cond).(*ast.BinaryExpr); ok && be.Op == token.LAND {
+				continue
+			}
+			for _, bs := range x.Body.List {
+				if as, ok := bs.(*ast.AssignStmt); ok && len(as.Lhs) == 1 && len(as.Rhs) == 1 && c.flowsToReturn(fi, as.Lhs[0]) {
+					if tv, isC := info.Types[as.Rhs[0]]; isC && tv.Value != nil && tv.Value.String() == "true" {
+						return true
+					}
+				}
+			}
+		}
+	}
+	return false
 }
 
 func (c *Ctx) isCanonicalRef(fi *core.FuncInfo, ref ast.Expr, site *ast.CallExpr) (bool, string) {
@@ -305,16 +466,7 @@ func (c *Ctx) isCanonicalRef(fi *core.FuncInfo, ref ast.Expr, site *ast.CallExpr
 				ja = core.Unparen(defs[0].Expr)
 			}
 		}
-		j, ok := ja.(*ast.CallExpr)
-		if !ok {
-			return false
-		}
-		jc := c.P.CalleeAny(fi, j)
-		if jc == nil || jc.FullName() != "path.Join" || len(j.Args) != 2 {
-			return false
-		}
-		s, isConst := core.ConstString(info, j.Args[0])
-		return isConst && s == "#/definitions"
+		return c.isDefsJoin(fi, ja, 0)
 	}
 	if isJoinDefs(ref) {
 		return true, "built as '#/definitions/'+name"
@@ -423,6 +575,51 @@ func (c *Ctx) progressRule(reach []*core.FuncInfo) {
 			return true
 		})
 		if n == 0 {
+			// the flag may be defined as "something is left to delete": flag := len(M) > 0, followed by a loop over M
+			// whose body deletes one definition per element
+			ast.Inspect(fi.Decl.Body, func(nd ast.Node) bool {
+				var lhs, rhs ast.Expr
+				switch x := nd.(type) {
+				case *ast.AssignStmt:
+					if len(x.Lhs) == 1 && len(x.Rhs) == 1 {
+						lhs, rhs = x.Lhs[0], x.Rhs[0]
+					}
+				case *ast.ReturnStmt:
+					if len(x.Results) == 1 {
+						rhs = x.Results[0]
+					}
+				}
+				if rhs == nil {
+					return true
+				}
+				if lhs != nil && !c.flowsToReturn(fi, lhs) {
+					return true
+				}
+				x, empty, isLen := core.EmptyTest(info, core.Cond{Kind: core.CondBool, Expr: rhs})
+				if !isLen || empty {
+					return true
+				}
+				// a loop over x, after this point, deleting from the definitions at the top level of its body
+				ast.Inspect(fi.Decl.Body, func(m ast.Node) bool {
+					rs, isRange := m.(*ast.RangeStmt)
+					if !isRange || rs.Pos() < nd.Pos() || !sameExpr(rs.X, x) {
+						return true
+					}
+					for _, st := range rs.Body.List {
+						if es, isExpr := st.(*ast.ExprStmt); isExpr {
+							for _, d := range dels {
+								if es.X == ast.Expr(d) {
+									n++
+								}
+							}
+						}
+					}
+					return true
+				})
+				return true
+			})
+		}
+		if n == 0 {
 			ok, why = false, "the pass never reports progress"
 		}
 		c.S.Decide(ok, "C06", "TERM-PROGRESS", fi.QName(), c.P.Pos(fi.Decl.Pos()),
@@ -443,38 +640,23 @@ func (c *Ctx) panicUnreachable(reach []*core.FuncInfo) {
 			continue
 		}
 		info := c.info(fi)
-		// has `switch p.(type) { … default: panic }` on an interface parameter
+		// contains a panic and takes the document as an interface-typed parameter
 		var guarded *types.Var
-		ast.Inspect(fi.Decl.Body, func(nd ast.Node) bool {
-			ts, ok := nd.(*ast.TypeSwitchStmt)
-			if !ok {
-				return true
+		hasPanic := false
+		for _, call := range calls(fi.Decl.Body) {
+			if isBuiltin(info, call, "panic") {
+				hasPanic = true
 			}
-			es, ok := ts.Assign.(*ast.ExprStmt)
-			if !ok {
-				return true
-			}
-			ta, ok := core.Unparen(es.X).(*ast.TypeAssertExpr)
-			if !ok {
-				return true
-			}
-			o, _ := core.ObjOf(info, ta.X).(*types.Var)
-			hasPanic := false
-			for _, cl := range ts.Body.List {
-				cc := cl.(*ast.CaseClause)
-				if cc.List == nil {
-					for _, call := range callsInStmts(cc.Body) {
-						if isBuiltin(info, call, "panic") {
-							hasPanic = true
-						}
-					}
+		}
+		if hasPanic {
+			sig := fi.Obj.Type().(*types.Signature)
+			for i := 0; i < sig.Params().Len(); i++ {
+				if it, ok := sig.Params().At(i).Type().Underlying().(*types.Interface); ok && it.NumMethods() == 0 {
+					guarded = sig.Params().At(i)
+					break
 				}
 			}
-			if o != nil && hasPanic {
-				guarded = o
-			}
-			return true
-		})
+		}
 		if guarded == nil {
 			continue
 		}
